@@ -25,7 +25,12 @@ def sh(cmd, **kw):
 
 def demo(src, tag):
     exe = "/tmp/seed_demo_%s_%d" % (tag, os.getpid())
-    extra = ["-DQENTEM_AUTO_ESCAPE_HTML=0"] if "-DQENTEM_AUTO_ESCAPE_HTML=0" in open(src).read() else []
+    txt = open(src).read()
+    extra = ["-DQENTEM_AUTO_ESCAPE_HTML=0"] if "-DQENTEM_AUTO_ESCAPE_HTML=0" in txt else []
+    if "-DQENTEM_AVX2" in txt:
+        extra += ["-DQENTEM_AVX2=1", "-mavx2"]
+    elif "-DQENTEM_SSE2" in txt:
+        extra += ["-DQENTEM_SSE2=1", "-msse2"]
     r = sh(["g++", "-std=c++17", "-O1", "-g", "-fsanitize=address,undefined", "-fno-sanitize-recover=all"] + extra +
            ["-I%s/Include" % REPO, src, "-o", exe, "-lpthread"])
     if r.returncode != 0:
